@@ -100,6 +100,7 @@ pub struct ExecState {
     pub call_start_alive: usize,
     pub call_start_traces: usize,
     pub call_start_visits: usize,
+    pub clone_counter: u32,
 }
 
 impl Default for ExecState {
@@ -108,7 +109,7 @@ impl Default for ExecState {
             depth: 0, dtor_counter: 0, faults: Faults::default(), fired_panics: 0, fired_scripts: 0, panic_in_call: false, any_panic: false,
             pending_clone: None, clone_done: None, c14: None, record_dtors: false, dtors: vec![], call_digests: vec![], order_digest: 0,
             call_start_log: 0, c16_markers: false, collected_group_with_outside_survivor: false, nested_destroy_in_script: 0, nontrivial: 0,
-            shape_hash: 0, dtor_downgrade_p: 0, dtor_rng: crate::gen::Rng(0), dtor_auto: 0, inline_record: vec![], call_start_alive: 0, call_start_traces: 0, call_start_visits: 0,
+            shape_hash: 0, dtor_downgrade_p: 0, dtor_rng: crate::gen::Rng(0), dtor_auto: 0, inline_record: vec![], call_start_alive: 0, call_start_traces: 0, call_start_visits: 0, clone_counter: 0,
         }
     }
 }
@@ -488,6 +489,22 @@ impl Clone for Node {
     fn clone(&self) -> Node {
         har(|| {
             let src = self.id.get();
+            // fault: the value's Clone impl panics (before it has produced anything)
+            let armed = x(|x| {
+                let c = x.clone_counter;
+                x.clone_counter += 1;
+                x.faults.clone_panic_at.contains(&c)
+            });
+            if armed && !std::thread::panicking() {
+                x(|x| {
+                    x.fired_panics += 1;
+                    x.panic_in_call = true;
+                    x.any_panic = true;
+                });
+                report::F_PANIC.store(true, Relaxed);
+                st(St::f_clone_panic, 1);
+                std::panic::panic_any(Injected(u32::MAX));
+            }
             let (dst, o2) = match x(|x| x.pending_clone.take()) {
                 Some(p) => p,
                 // the model predicted that make_mut would not clone (the handle is the
@@ -945,10 +962,29 @@ fn exec_inner(op: &Op, dying: Option<&Node>) -> bool {
                     }
                 }
                 let g = CloneRelease;
-                sut(|| {
-                    Rc::make_mut(&mut r);
-                });
+                let res = catch_unwind(AssertUnwindSafe(|| {
+                    sut(|| {
+                        Rc::make_mut(&mut r);
+                    })
+                }));
                 drop(g);
+                if let Err(p) = res {
+                    // the call unwound (injected panic in the value's Clone or in a
+                    // destructor run by the release of the old handle): the program still
+                    // owns `r`, whatever it points to now
+                    x(|x| x.pending_clone = None);
+                    if x(|x| x.clone_done.take()).is_some() {
+                        let addr = verif::rcbox_addr(&r);
+                        let vp = Rc::as_ptr(&r) as usize;
+                        m(|m| {
+                            m.obj_mut(o2).addr = addr;
+                            m.addr_map.insert(addr, (o2, 0));
+                        });
+                        w(|w| w.as_ptr.insert((o2, 0), vp));
+                    }
+                    w(|w| w.hs.insert(h, r));
+                    resume_unwind(p);
+                }
                 let done = x(|x| x.clone_done.take());
                 x(|x| x.pending_clone = None);
                 if done.is_none() {
@@ -1058,10 +1094,30 @@ fn exec_inner(op: &Op, dying: Option<&Node>) -> bool {
                     }
                 }
                 let g = CloneRelease;
-                sut(|| {
-                    Rc::make_mut(&mut sl.h);
-                });
+                let res = catch_unwind(AssertUnwindSafe(|| {
+                    sut(|| {
+                        Rc::make_mut(&mut sl.h);
+                    })
+                }));
                 drop(g);
+                if let Err(p) = res {
+                    // the call unwound: the value still stores the handle, whatever it
+                    // points to now
+                    x(|x| x.pending_clone = None);
+                    if x(|x| x.clone_done.take()).is_some() {
+                        let addr = verif::rcbox_addr(&sl.h);
+                        let vp = Rc::as_ptr(&sl.h) as usize;
+                        m(|m| {
+                            m.obj_mut(o2).addr = addr;
+                            m.addr_map.insert(addr, (o2, 0));
+                            m.recompute_p();
+                        });
+                        w(|w| w.as_ptr.insert((o2, 0), vp));
+                        sl.target = o2;
+                    }
+                    put_back(sl);
+                    resume_unwind(p);
+                }
                 let done = x(|x| x.clone_done.take());
                 x(|x| x.pending_clone = None);
                 if done.is_none() {
